@@ -261,6 +261,7 @@ def _bulk(sess, monitor, ok, what, key, sig, tcs, witness):
     m = sess.mon(monitor)
     m.in_scope += n_ok
     m.held += n_ok
+    sess.facet_counts[(monitor, key)] += n_ok
     if tcs is not None:
         u, c = np.unique(tcs.astype(str), return_counts=True)
         for a, b in zip(u.tolist(), c.tolist()):
@@ -752,6 +753,22 @@ def judge_sample(sess, s, config, b, facets, monitor="M-bs"):
             C([str(g) for g in b.groups] == [str(g) for g in s.groups], "list/order of group names not preserved in the sample", "gs-groups")
             bp, bn = np.asarray(b.pos), np.asarray(b.neg)
             C(bool(np.all(bp[1:] >= bp[:-1])) and bool(np.all(bn[1:] >= bn[:-1])), "group sample arrays not ascending", "gs-sorted")
+            # group queries on the *sample* (it is a GroupScores of its own): per-group matrices at thresholds equal to sampled scores
+            allb = np.concatenate([bp.astype(float), bn.astype(float)])
+            if allb.size and (allb.size <= 80 or sess.mon(monitor).calls % 4 == 0):
+                thr_b = np.unique(np.quantile(allb, [0.2, 0.5, 0.8], method="nearest"))
+                gcm = np.asarray(b.group_cm(thr_b).matrix)
+                ok_g = gcm.shape == (len(b.groups), len(thr_b), 2, 2)
+                if ok_g:
+                    for i, g in enumerate(b.groups):
+                        fp_ = bp[np.asarray([str(x) == str(g) for x in b.pos_groups], dtype=bool)].tolist() if len(bp) else []
+                        fn_ = bn[np.asarray([str(x) == str(g) for x in b.neg_groups], dtype=bool)].tolist() if len(bn) else []
+                        ref = [R.count_cm(fp_, fn_, t, sc, ec) for t in thr_b.tolist()]
+                        if gcm[i].tolist() != ref:
+                            ok_g = False
+                            break
+                    ok_g = ok_g and np.array_equal(gcm.sum(axis=0), np.asarray(b.cm(thr_b).matrix))
+                C(bool(ok_g), "per-group matrices of a bootstrap sample differ from counting on the sample's own (score, label) pairs", "gs-sample-group-cm")
             if strat == "by_group" and method == "replacement":
                 same = all((np.sum(b.pos_groups == g) + np.sum(b.neg_groups == g)) == (np.sum(s.pos_groups == g) + np.sum(s.neg_groups == g)) for g in s.groups)
                 C(bool(same), "by_group: a group's sample count is not preserved", "gs-group-count")
@@ -761,20 +778,34 @@ def install_bs(sess, facets=("c11",), keep=False):
     S = lib()
     from score_analysis import group_scores as G
 
+    import collections
+
     install_ctor_snapshot(sess)
     sess.bs_log = []
     sess.bs_keep = keep
+    recent = collections.deque(maxlen=5)  # (sample, state at creation): a later draw must not change an earlier sample
 
-    def post(snap, args, kwargs, res):
+    def pre(args, kwargs):
+        return _obj_state(args[0]) if facets else None
+
+    def post(src_state, args, kwargs, res):
         s = args[0]
         config = kwargs.get("config", args[1] if len(args) > 1 else S.DEFAULT_BOOTSTRAP_CONFIG)
         if sess.bs_keep and len(sess.bs_log) < 200_000:
             sess.bs_log.append((s, config, res))
         if facets:
+            if not callable(config.sampling_method):
+                sess.check("M-bs", _obj_state(s) == src_state, "bootstrap_sample changed its source object", lambda: {"method": str(config.sampling_method)}, key="bs-source-unchanged")
+                stale = [i for i, (b0, st0) in enumerate(recent) if b0 is not res and _obj_state(b0) != st0]
+                sess.check("M-bs", not stale, "an earlier bootstrap sample changed when a later sample was drawn",
+                           lambda: {"method": str(config.sampling_method), "stratified": config.stratified_sampling, "how_many_draws_ago": [len(recent) - i for i in stale]},
+                           key="bs-sample-stable")
+                if res is not s:
+                    recent.append((res, _obj_state(res)))
             judge_sample(sess, s, config, res, facets)
 
-    sess.wrap(S.Scores, "bootstrap_sample", "M-bs", post)
-    sess.wrap(G.GroupScores, "bootstrap_sample", "M-bs", post)
+    sess.wrap(S.Scores, "bootstrap_sample", "M-bs", post, pre=pre)
+    sess.wrap(G.GroupScores, "bootstrap_sample", "M-bs", post, pre=pre)
 
 
 # --------------------------------------------------------------------------------------
